@@ -194,7 +194,7 @@ func c19LockRun(capPath, scenario string, prefix []int) (*lockRun, error) {
 			}
 		case 'T':
 			/* The pause interval passes: the unmute timer fires. */
-			vtime.Advance(opshell.PlainWritePause, nil)
+			vtime.Advance(c19Pause, nil)
 			if !ls.waitRole("timer:") {
 				return nil, fmt.Errorf("the unmute timer never reached the write lock")
 			}
